@@ -37,6 +37,7 @@ def run_one(sid, tier, also=()):
             try:
                 r = subprocess.run([os.path.join(VERIF, "check"), p, tier], capture_output=True, text=True, env=env, timeout=3600)
                 lines = [l[:260] for l in r.stdout.splitlines() if l.startswith(("VIOLATION", "UNDECIDED", "CHECKER-ERROR", "KNOWN"))]
+                lines = [l for l in lines if l.startswith("VIOLATION")] + [l for l in lines if not l.startswith("VIOLATION")]
                 out[p] = dict(rc=r.returncode, lines=lines[:6], tail=r.stdout.strip().splitlines()[-1:] if r.stdout.strip() else r.stderr[-300:])
             except subprocess.TimeoutExpired:
                 out[p] = dict(rc="timeout", lines=[])
